@@ -280,6 +280,12 @@ def definition(draw, api_word: str, api_key: int, nullable_prim_arrays: bool = F
     etype = draw(st.sampled_from(["request", "response", "request", "response", "data"]))
     lo = draw(st.sampled_from([0, 0, 1, 2]))
     hi = lo + draw(st.sampled_from([0, 1, 2, 3, 4]))
+    wide = draw(st.integers(0, 11))
+    if wide == 0:  # two-digit versions, as the long-lived upstream APIs have (Fetch 0-17, Metadata 0-13): ranges such as 8-10 or 3-11
+        lo, hi = draw(st.sampled_from([(0, 10), (2, 11), (3, 12), (1, 13)]))
+    elif wide in (1, 2):
+        lo = draw(st.sampled_from([6, 7, 8, 9]))
+        hi = draw(st.sampled_from([10, 11, 12]))
     versions = list(range(lo, hi + 1))
     fmode = draw(st.integers(0, 3))
     if fmode == 0:
